@@ -291,6 +291,11 @@ class NPShim:
         ops = [np.asarray(to_obj(unwrap(o)), dtype=object) for o in operands]
         return np.einsum(subscripts, *ops)
 
+    def sinc(self, x):
+        x = to_obj(unwrap(x))
+        px = x * P.sym("pi")            # NumPy's normalised sinc: sin(pi x)/(pi x)
+        return self.sin(px) / px
+
     def hypot(self, a, b):
         a, b = to_obj(unwrap(a)), to_obj(unwrap(b))
         return self.sqrt(a * a + b * b)
